@@ -21,7 +21,7 @@ import xarray as xr
 import facegrid as fg
 from common import dyadic_array, exc_kind
 
-RULE = ("scenarios simple / faces / metrics / transform; sequences of 1-3 operations from "
+RULE = ("scenarios simple / faces / faces3 (three axes, sparse link table) / metrics / transform; sequences of 1-3 operations from "
         "diff, interp, min, max, cumsum (scalar, multi-axis, dict kwargs), vector diff/interp with "
         "other_component, pad, derivative, integrate, average, cumint, get_metric, interp_like, transform "
         "(anonymous target_data, conservative), constructor with dict arguments; non-trivial = the sequence "
@@ -57,6 +57,7 @@ def grid_state(grid):
 OPS = {
     "simple": ["diff", "interp", "min", "max", "cumsum", "diff2", "pad", "vecdiff", "ctor", "interp_dicts"],
     "faces": ["fdiff", "finterp", "fvecdiff", "fvecinterp", "fpad", "fvecpad", "ctor_faces"],
+    "faces3": ["fdiff", "finterp", "fdiffz", "fcumsumz", "fpad", "fpadz", "fdiff2d"],
     "metrics": ["derivative", "integrate", "average", "cumint", "get_metric", "interp_like", "mw_diff"],
     "transform": ["t_linear_anon", "t_linear", "t_conservative", "t_log"],
 }
@@ -120,6 +121,25 @@ def build(case):
         w["vecX"] = {"X": w["u"]}
         w["otherY"] = {"Y": w["v"]}
         w["bw"] = {"X": (1, 1), "Y": (1, 0)}
+    elif scen == "faces3":
+        # three axes; the table names an axis only for the faces that have a link along it (an omitted
+        # entry means "no links"), and never names Z
+        nf, N = 3, 3
+        ds = fg.dataset(nf, N, [])
+        ds = ds.assign_coords(zc=("zc", np.arange(2) + 0.5), zg=("zg", np.arange(2) * 1.0))
+        w["boundary"] = {"X": "fill", "Y": "extend", "Z": "fill"}
+        w["fill"] = {"X": 0.0, "Y": 0.0, "Z": 1.0}
+        w["fc"] = {"face": {0: {"X": (None, (1, "X", False))},
+                            1: {"X": ((0, "X", False), None), "Y": (None, (2, "Y", False))},
+                            2: {"Y": ((1, "Y", False), None)}}}
+        w["coords"] = dict(copy.deepcopy(fg.GRID_COORDS), Z={"center": "zc", "left": "zg"})
+        w["ctor_kwargs"] = dict(coords=w["coords"], face_connections=w["fc"], boundary=w["boundary"],
+                                fill_value=w["fill"], autoparse_metadata=False)
+        grid = xgcm.Grid(ds, **w["ctor_kwargs"])
+        w["c"] = xr.DataArray(dyadic_array(rr, [nf, N, N]), dims=["face", "xc", "yc"], name="c")
+        w["c3"] = xr.DataArray(dyadic_array(rr, [nf, 2, N, N]), dims=["face", "zc", "xc", "yc"], name="c3")
+        w["bw"] = {"X": (1, 1), "Y": (1, 0)}
+        w["bwz"] = {"Z": (1, 0), "X": (0, 1)}
     else:
         n = 4
         ds = xr.Dataset(coords={"zc": ("zc", np.arange(n) + 0.5), "zo": ("zo", np.arange(n + 1) * 1.0)})
@@ -166,6 +186,15 @@ def do(op, w):
         return g.diff(w["c"], "X", to="left")
     if op == "finterp":
         return g.interp(w["c"], "Y", to="left")
+    if op == "fdiffz":
+        return g.diff(w["c3"], "Z", to="left", boundary="fill")
+    if op == "fcumsumz":
+        return g.cumsum(w["c3"], "Z", to="left", boundary="fill")
+    if op == "fpadz":
+        from xgcm.padding import pad
+        return pad(w["c3"], g, boundary_width=w["bwz"])
+    if op == "fdiff2d":
+        return g.diff(w["c3"], ["X", "Z"], to="left")
     if op == "fvecdiff":
         return g.diff(w["vecX"], "X", other_component=w["otherY"])
     if op == "fvecinterp":
